@@ -135,6 +135,20 @@ def oracle_sweep(maxlen, maxd, through_tract=True):
                     c = {'text': text, 'config': cfg, 'qq': qq, 'got': repr(got)[:200], 'why': why, 'via': 'Tract'}
                     c['known_id'] = known_id(c)
                     fails.append(c)
+    # "chains of any length": a few long ones, of the shapes that make the standardisation loop run longest (a half behind many quarters moves
+    # forward one place per pass), judged by the same rational oracle -- far beyond what the interpreter's recursion limit would allow a
+    # pass-per-stack-frame formulation
+    for L in (60, 400, 1300):
+        for ch in (('NE',) * L + ('N',), ('SW', 'NE') * (L // 2) + ('E',), ('NE',) * L, ('S',) + ('NW',) * L):      # (one half at most: halves double the pieces under break_halves)
+            text = corr.render(ch)
+            lf = list(reversed(ch))
+            for mn, mx, bh in ((2, None, False), (1, None, True), (0, 3, False)):
+                n += 1
+                got = H.call(ap.parse_aliquot, text, mn, mx, None, bh)
+                why = judge(lf, mn, mx, bh, got)
+                if why:
+                    fails.append({'text': text if len(text) < 200 else f'{text[:12]}...({len(ch)} components)...{text[-8:]}', 'chain_len': len(ch), 'mn': mn, 'mx': mx, 'qq': None, 'bh': bh,
+                                  'got': repr(got)[:200], 'why': why[:300], 'known_id': None})
     # keep one representative per known id plus all unknown
     seen, keep = set(), []
     for f in fails:
